@@ -249,3 +249,7 @@ def check_scc_type(_):
             fails.append(('compute_SCCs:raises:TypeError',
                           'compute_SCCs(%r) raised %s' % (junk, type(e).__name__)))
     return fails
+
+
+def scc_case_nontrivial(case):
+    return len(case[1]) > 0
